@@ -1,8 +1,12 @@
 package harness
 
 import (
+	"bytes"
 	"fmt"
+	"runtime"
 	"runtime/debug"
+	"strings"
+	"syscall"
 	"time"
 )
 
@@ -29,8 +33,23 @@ var DefaultDeadline = 10 * time.Second
 // Guard runs f in its own goroutine, converting a panic into a value and enforcing a deadline.
 // A goroutine that overruns cannot be killed; the caller is expected to stop the process soon
 // (the runner does: see props.fatalHang).
+//
+// The deadline d is a wall-clock period only for the fast path. This sandbox runs checks at a load
+// average of several times the core count (and fresh memory is expensive to touch), so wall time alone
+// cannot tell a hang from starvation. After d has passed the call is polled, and it is called a hang
+// only when one of these holds:
+//   - busy hang: the process has burnt 6*d of CPU time since the call began (a spinning call on an
+//     idle machine reaches that after about 6*d of wall time, as before);
+//   - blocked hang: for 2*d of consecutive polls the goroutine of the call is parked (channel, lock,
+//     wait group ...; a timed sleep is not parked) and no other goroutine of the process is running or runnable, i.e. nothing
+//     in the process can ever wake it.
+//
+// A call that is merely starved keeps being waited for; the shard's own time budget ends that wait and
+// is reported as inconclusive by the driver.
 func Guard(d time.Duration, f func()) Outcome {
 	done := make(chan Outcome, 1)
+	gid := make(chan string, 1)
+	cpu0 := processCPU()
 	go func() {
 		var o Outcome
 		defer func() {
@@ -40,26 +59,97 @@ func Guard(d time.Duration, f func()) Outcome {
 			}
 			done <- o
 		}()
+		gid <- goroutineID()
 		f()
 	}()
+	id := <-gid
 	timer := time.NewTimer(d)
 	defer timer.Stop()
 	select {
 	case o := <-done:
 		return o
 	case <-timer.C:
-		// give it five more periods: on a heavily loaded machine (load average of several times the
-		// core count while other checks run) a call that is merely slow - fresh memory is expensive to
-		// touch in this sandbox - must not be called a hang. A call that really spins costs 60 s once.
-		timer2 := time.NewTimer(5 * d)
-		defer timer2.Stop()
+	}
+	tick := time.NewTicker(250 * time.Millisecond)
+	defer tick.Stop()
+	var blockedSince time.Time
+	for {
 		select {
 		case o := <-done:
 			return o
-		case <-timer2.C:
+		case <-tick.C:
+		}
+		if processCPU()-cpu0 >= 6*d {
 			return Outcome{TimedOut: true}
 		}
+		if parkedForGood(id) {
+			if blockedSince.IsZero() {
+				blockedSince = time.Now()
+			} else if time.Since(blockedSince) >= 2*d {
+				return Outcome{TimedOut: true}
+			}
+		} else {
+			blockedSince = time.Time{}
+		}
 	}
+}
+
+// processCPU is the user+system CPU time consumed by this process so far.
+func processCPU() time.Duration {
+	var ru syscall.Rusage
+	if err := syscall.Getrusage(syscall.RUSAGE_SELF, &ru); err != nil {
+		return 0
+	}
+	return time.Duration(ru.Utime.Nano() + ru.Stime.Nano())
+}
+
+// goroutineID returns the "goroutine N" prefix of the calling goroutine's stack header.
+func goroutineID() string {
+	buf := make([]byte, 64)
+	buf = buf[:runtime.Stack(buf, false)]
+	if i := bytes.IndexByte(buf, '['); i > 0 {
+		return string(buf[:i]) // "goroutine 123 "
+	}
+	return ""
+}
+
+// parkedForGood reports whether goroutine id is parked and no goroutine other than the caller is
+// running or runnable.
+func parkedForGood(id string) bool {
+	if id == "" {
+		return false
+	}
+	buf := make([]byte, 1<<20)
+	buf = buf[:runtime.Stack(buf, true)]
+	me := goroutineID()
+	target := false
+	for _, g := range bytes.Split(buf, []byte("\n\n")) {
+		if !bytes.HasPrefix(g, []byte("goroutine ")) {
+			continue
+		}
+		open := bytes.IndexByte(g, '[')
+		cl := bytes.IndexByte(g, ']')
+		if open < 0 || cl < open {
+			return false
+		}
+		head, state := string(g[:open]), string(g[open+1:cl])
+		if head == me || bytes.Contains(g, []byte("os/signal.")) {
+			continue
+		}
+		busy := false
+		for _, s := range []string{"running", "runnable", "syscall", "sleep", "GC ", "IO wait", "preempted", "copystack", "dead", "idle", "waiting"} {
+			if strings.HasPrefix(state, s) {
+				busy = true
+			}
+		}
+		if busy {
+			return false
+		}
+		if head == id {
+			target = true
+		}
+	}
+	return target
 }
 
 // Call runs f inline and converts a panic into an Outcome (no deadline). For calls that cannot hang.
